@@ -6,10 +6,10 @@ package sqlc
 // C06: every CachedConn of the process shares one single-flight barrier (loads of one key are suppressed across conns),
 // and a write invalidates only after the database write succeeded.
 //@ func NewConn
-//@   property C06
+//@   property C06 C07
 //@   call New#0: assert arg_barrier == singleFlights && arg_errNotFound == sql.ErrNoRows
 //@ func NewNodeConn
-//@   property C06
+//@   property C06 C07
 //@   call NewNode#0: assert arg_barrier == singleFlights && arg_errNotFound == sql.ErrNoRows
 
 //@ func (cc CachedConn) ExecCtx
